@@ -34,6 +34,12 @@ def panic_sites(body, include_unwrap=True):
             kind = "Option" if "option" in d else "Result"
             out.append({"kind": "unwrap", "bb": bi, "what": "%s::%s" % (kind, fn["name"]), "line": t.get("line"),
                         "macs": macs, "recv_ty": (t.get("argtys") or ["?"])[0]})
+        elif fn.get("name") in ("index", "index_mut") and re.search(r"ops::(Index|IndexMut)<std::ops::Range", str(fn.get("full") or d)):
+            # slicing by a range (`v[a..b]`, `v[..n]`, `v[a..]`) is a library call, not a MIR assert: it panics when the
+            # range is inverted or runs past the end (seeded C16-12)
+            out.append({"kind": "libcall", "bb": bi, "what": "range-slice", "line": t.get("line"), "macs": macs})
+        elif fn.get("name") in ("copy_from_slice", "clone_from_slice", "split_at", "split_at_mut") and "slice" in d:
+            out.append({"kind": "libcall", "bb": bi, "what": "slice-%s" % fn["name"], "line": t.get("line"), "macs": macs})
         elif fn.get("name") in ("collect", "from_iter", "extend", "extend_one", "from_fn") and "heapless::" in (
                 str(fn.get("gargs")) + str(t.get("dty")) + str(fn.get("self_ty")) + str(fn.get("full"))) \
                 and "heapless::" in (str(t.get("dty")) + str(fn.get("self_ty")) + str(fn.get("gargs"))):
